@@ -680,6 +680,7 @@ def mon_C08(stream, case, obs):
     prev_ping = "0"
     established = False
     cur = 0
+    disc_called = set()   # connections on which the application has called disconnect()
     for st in tr.steps:
         i, t, p = st["i"], st["t"], st["p"]
         if t[0] == "cfg":
@@ -687,8 +688,11 @@ def mon_C08(stream, case, obs):
         if t[0] == "tick":
             now += int(t[1])
         sock_before = cur
+        if t[0] == "disconnect" and cur:
+            disc_called.add(cur)
         wrote_ping = False
         disc16 = 0
+        disc0 = 0
         for it in st["items"]:
             if it[0] == "tx":
                 last_tx[it[1]] = now
@@ -708,6 +712,10 @@ def mon_C08(stream, case, obs):
                 disc16 += 1
                 if K == 0:
                     hits.append((i, "k0-timeout", "keep-alive timeout reported although keepalive is 0"))
+            elif it[0] == "ev" and it[1].startswith("on_disconnect:0:0") and sock_before in disc_called:
+                # the application had called disconnect() on this connection (its DISCONNECT not yet written): the connection
+                # the keep-alive gives up on is reported with the result success (C10), not MQTT_ERR_KEEPALIVE
+                disc0 += 1
         cur = int(p.get("sock", "0"))
         # what held on the connection this step started with (a step that closes it is judged against that)
         ping_before, est_before = ping_at, established
@@ -735,8 +743,8 @@ def mon_C08(stream, case, obs):
                 # dead peer: must close now, report once, non-zero result
                 if cur == sock_before:
                     hits.append((i, "timeout-missed", f"PINGREQ unanswered for {now - ping_at} ms (K={K}) and loop_misc() kept the connection"))
-                elif disc16 != 1:
-                    hits.append((i, "timeout-report", f"keep-alive timeout reported {disc16} times through on_disconnect"))
+                elif disc16 + disc0 != 1:
+                    hits.append((i, "timeout-report", f"keep-alive timeout reported {disc16 + disc0} times through on_disconnect"))
                 elif not any(e.startswith("ret:") and e != "ret:0" for e in st["evs"]) or p.get("st") == "connected":
                     hits.append((i, "timeout-result", f"keep-alive timeout: loop_misc result {st['evs']} state {p.get('st')}"))
             elif disc16 and established:
